@@ -48,6 +48,18 @@ Theorem C20_partial : forall cfg k cap buf0 req fr,
   observable k (async_handle cfg k cap buf0 req fr) = observable k (handle cfg k cap req fr).
 Proof. exact async_handle_observable_eq. Qed.
 
+(* the excluded class is exactly the defect: it depends on the request (and the id remap) only -- not on the capacity,
+   transport or answer -- and on every member the async handler makes one call (the id remap) where the sync one makes two *)
+Theorem C20_known_class_only_request : forall cfg k cap req fr k' cap' fr',
+  known_class cfg k cap req fr = known_class cfg k' cap' req fr'.
+Proof. exact known_class_only_request. Qed.
+
+Theorem C20_known_class_differs : forall cfg k cap buf0 req fr,
+  known_class cfg k cap req fr = true ->
+  List.length (fst (fst (async_handle cfg k cap buf0 req fr))) = 1%nat /\
+  List.length (fst (fst (handle cfg k cap req fr))) = 2%nat.
+Proof. exact known_class_differs. Qed.
+
 Theorem C20_partial_strong : forall cfg k cap buf0 req fr,
   async_expressible fr = true -> known_class cfg k cap req fr = false ->
   async_handle cfg k cap buf0 req fr = handle cfg k cap req fr.
@@ -123,6 +135,8 @@ Print Assumptions C20_refuted.
 Print Assumptions C20_refuted_write_size.
 Print Assumptions C20_repaired_witnesses_agree.
 Print Assumptions C20_partial.
+Print Assumptions C20_known_class_only_request.
+Print Assumptions C20_known_class_differs.
 Print Assumptions C20_partial_strong.
 Print Assumptions C20_full_after_fixes.
 Print Assumptions C20_partial_any_shape.
